@@ -118,7 +118,12 @@ func c09Oracle(cx *lib.Ctx, src []byte, origin string) bool {
 			return
 		}
 		// the other way into the same formatter: load the file and write it out (File.Bytes formats the tokens)
-		if wf, wd := hclwrite.ParseConfig(src, "", hcl.InitialPos); !wd.HasErrors() {
+		// (the file is loaded from a buffer of the caller's that is recycled right afterwards: the file owns its tokens)
+		scratch := append([]byte{}, src...)
+		if wf, wd := hclwrite.ParseConfig(scratch, "", hcl.InitialPos); !wd.HasErrors() {
+			for i := range scratch {
+				scratch[i] = "#{}=\"\n x"[i%8]
+			}
 			if fb := wf.Bytes(); !bytes.Equal(fb, out) {
 				cx.Res.Fail(lib.Failure{Kind: "oracle", Key: "file-route-differs", Desc: "hclwrite.ParseConfig(src).Bytes() differs from hclwrite.Format(src): both format the same tokens (" + origin + ")", Input: string(src), Impl: string(fb), Model: string(out)})
 				return
